@@ -106,7 +106,7 @@ def check(chk, scs, outs):
 
 def run(chk):
     dump = chk.scratch.file("hp.dump")
-    r = tlc.must_pass(tlc.run("HpMC", "HpMC.cfg", chk.scratch, dump=dump, timeout=1800), "HpMC")
+    r = tlc.must_pass(tlc.run("HpMC", "HpMC.thorough.cfg" if chk.tier == "thorough" else "HpMC.cfg", chk.scratch, dump=dump, timeout=1800), "HpMC")
     chk.add_tlc(r, "HpMC")
     groups, n, skipped, lines = {}, 0, 0, 0
     for st in tlaval.parse_dump(dump, want=lambda b: "done = TRUE" in b):
@@ -121,7 +121,9 @@ def run(chk):
         n += 1
         if n in (30, 900):
             chk.sample({"scenario": _plain(sc), "spec_trend_num": _plain(out["num"]), "spec_trend_den": _plain(out["den"]), "filter_span_starts_at": out["lo"]})
-        key = (len(sc["data"]), sc["lam"], sc["lev"], sc["chg"], sc["span"], sc["log"])
+        obs = [i for i, v in enumerate(sc["data"]) if not nanv(v)]
+        # two scenarios can be stacked as variants when their observed hulls coincide (the filter span of a multi-variant series is the common one)
+        key = (len(sc["data"]), obs[0], obs[-1], sc["lam"], sc["lev"], sc["chg"], sc["span"], sc["log"])
         groups.setdefault(key, []).append((sc, out))
     os.remove(dump)
     pairs = 0
@@ -140,7 +142,7 @@ def run(chk):
     chk.notes["straight_line_scenarios"] = lines
     chk.notes["singular_scenarios_skipped"] = skipped
     chk.exhaustive = True
-    chk.rule = ("7 data sets (3-5 periods, interior missing values, a straight line) x lambda in {1, 4} x level constraint in {none, first, last, "
+    chk.rule = ("7 (quick) / 16 (thorough) data sets (2-5 periods, interior / leading / trailing missing values, a straight line, a constant) x lambda in {1, 4} (thorough: {1, 2, 4}) x level constraint in {none, first, last, "
                 "before, after, interior} x change constraint in {none, interior, last, after, first} x output span in {default, inside, beyond both, "
                 "beyond end, before start} x log, limited to KKT systems of dimension <= 7 (32-bit TLC integers); plus pairs stacked as two variants; "
                 "a case is one scenario")
